@@ -8,7 +8,6 @@ use crate::rust_types::{
 use itertools::Itertools;
 use joinery::JoinableIterator;
 use lazy_format::lazy_format;
-use std::ops::Deref;
 use std::{collections::HashMap, io::Write};
 
 /// All information needed for Scala type-code
@@ -480,29 +479,21 @@ impl Scala {
             .collect_vec();
         itertools::concat(vec![types_in_aliases, types_in_structs, types_in_enum])
             .iter()
-            .flat_map(|ty| match ty {
-                RustType::Generic { id: _, parameters } => parameters.clone(),
-                RustType::Special(SpecialRustType::Option(ty) | SpecialRustType::Vec(ty)) => {
-                    vec![ty.deref().clone()]
-                }
-                RustType::Special(SpecialRustType::HashMap(kty, vty)) => {
-                    vec![kty.deref().clone(), vty.deref().clone()]
-                }
-                RustType::Special(_) => vec![ty.clone()],
-                RustType::Simple { .. } => vec![],
-            })
-            .any(|ty| {
-                matches!(
-                    ty,
-                    RustType::Special(
-                        SpecialRustType::U8
-                            | SpecialRustType::U16
-                            | SpecialRustType::U32
-                            | SpecialRustType::U53
-                            | SpecialRustType::U64
-                            | SpecialRustType::USize,
-                    )
-                )
-            })
+            .any(contains_unsigned_integer)
     }
+}
+
+/// Whether an unsigned integer occurs anywhere inside the type (at any nesting depth).
+fn contains_unsigned_integer(ty: &RustType) -> bool {
+    matches!(
+        ty,
+        RustType::Special(
+            SpecialRustType::U8
+                | SpecialRustType::U16
+                | SpecialRustType::U32
+                | SpecialRustType::U53
+                | SpecialRustType::U64
+                | SpecialRustType::USize,
+        )
+    ) || ty.parameters().any(contains_unsigned_integer)
 }
